@@ -14,6 +14,8 @@ impl Compiler {
 
     // format A: op | a | b | c (3 regs)
     pub fn emit_a(&mut self, op: OpCode, a: u8, b: u8, c: u8, span: Span) {
+        #[cfg(vbxq_aelys_lang_verif)]
+        self.verif_record_call(op, a, b, c);
         self.current.emit_a(op, a, b, c, self.current_line(span));
     }
 
@@ -23,6 +25,8 @@ impl Compiler {
     }
 
     pub fn emit_c(&mut self, op: OpCode, dest: u8, func: u8, nargs: u8, span: Span) {
+        #[cfg(vbxq_aelys_lang_verif)]
+        self.verif_record_call(op, dest, func, nargs);
         self.current
             .emit_c(op, dest, func, nargs, self.current_line(span));
     }
@@ -101,6 +105,18 @@ impl Compiler {
         CompileError::new(CompileErrorKind::TooManyConstants, span, self.source.clone()).into()
     }
 
+    // the frame of a call's callee starts right after the call's window (see verif.rs)
+    #[cfg(vbxq_aelys_lang_verif)]
+    fn verif_record_call(&self, op: OpCode, a: u8, b: u8, c: u8) {
+        let (name, base) = match op {
+            OpCode::Call => ("Call", b),
+            OpCode::CallGlobal => ("CallGlobal", a),
+            OpCode::CallUpval => ("CallUpval", a),
+            _ => return,
+        };
+        crate::verif::record_call(name, self.current.name.as_deref(), base, c, &self.register_pool);
+    }
+
     // inline cache: [op|dest|idx|nargs] [cache_lo] [cache_hi|slot_id]
     // known natives skip runtime patching
     pub fn emit_call_global_cached(
@@ -116,6 +132,11 @@ impl Compiler {
         // Check if this is a known native function (builtin or stdlib)
         let is_known_native =
             Self::is_builtin(global_name) || self.known_native_globals.contains(global_name);
+
+        #[cfg(vbxq_aelys_lang_verif)]
+        if !is_known_native {
+            self.verif_record_call(OpCode::CallGlobal, dest, global_idx, nargs);
+        }
 
         if is_known_native {
             // Emit CallGlobalNative directly - no runtime patching needed
